@@ -114,7 +114,7 @@ FlowScen(pk) == MkScen([i \in 1..Len(pk.ts) |-> FlowRule(i, pk.ts[i])], ReqOf(pk
 (*              MATCHED_VAR or MATCHED_VARS                                *)
 (***************************************************************************)
 SelSels  == {SelAll, SelKey(s_a), SelKey(s_A), SelRx([m |-> "prefix", lit |-> s_a]), SelRx([m |-> "exact", lit |-> s_A])}
-SelExcls == {<< >>, <<SelKey(s_a)>>, <<SelKey(s_b)>>, <<SelRx([m |-> "prefix", lit |-> s_a])>>}
+SelExcls == {<< >>, <<SelKey(s_a)>>, <<SelKey(s_A)>>, <<SelKey(s_b)>>, <<SelRx([m |-> "prefix", lit |-> s_a])>>}
 SelCols  == {"ARGS_GET", "ARGS_POST", "ARGS", "ARGS_NAMES", "ARGS_GET_NAMES", "REQUEST_HEADERS"}
 SelTargets == {Tgt(c, sl, FALSE, ex) : c \in SelCols, sl \in SelSels, ex \in SelExcls}
 SelEntries == {E(c, k, s_x) : c \in {"ARGS_GET", "ARGS_POST", "REQUEST_HEADERS"}, k \in {s_a, s_A, s_b}}
@@ -163,6 +163,8 @@ ChainScen(pk) ==
 (*   rule 90 : SecRule TX:n "@ge 2" deny   (the anomaly threshold)         *)
 (***************************************************************************)
 s_k  == <<107>>         \* "k"
+s_neg == <<110, 101, 103>>   \* "neg"
+s_m3 == <<45, 51>>      \* "-3"
 s_s  == <<115>>         \* "s"
 s_c_ == <<99, 95>>      \* "c_"
 s_y  == <<121>>         \* "y"
@@ -173,6 +175,7 @@ ActLists ==
     <<ASetvar(KN, "add", <<Lit(s_2)>>), ASetvar(KN, "add", <<Lit(s_1)>>)>>,
     <<ASetvar(KN, "sub", <<Lit(s_1)>>)>>,
     <<ASetvar(KN, "add", <<Mac("TX", s_k)>>)>>,
+    <<ASetvar(KN, "add", <<Mac("TX", s_neg)>>), ASetvar(KN, "sub", <<Mac("TX", s_neg)>>), ASetvar(KN, "add", <<Mac("TX", s_neg)>>)>>,
     <<ASetvar(KS, "set", <<Mac("MATCHED_VAR", << >>)>>), ASetvar(KN, "add", <<Lit(s_1)>>)>>,
     <<ASetvar(KS, "set", <<Lit(s_x)>>), ASetvar(KS, "del", << >>)>>,
     <<ASetvar(<<Lit(s_c_), Mac("MATCHED_VAR", << >>)>>, "add", <<Lit(s_1)>>)>>,
@@ -193,7 +196,7 @@ ActsPicks(maxEntries, two, slice, slices) ==
    p2 : IF two THEN {1, 2} ELSE {0},
    rq : SeqsUpTo(ActsEntries, maxEntries), post : BOOLEAN]
 ActsScen(pk) ==
-  MkScen(<<MkRule(5, 1, <<ActLink(<<ASetvar(<<Lit(s_k)>>, "set", <<Lit(s_2)>>)>>)>>),
+  MkScen(<<MkRule(5, 1, <<ActLink(<<ASetvar(<<Lit(s_k)>>, "set", <<Lit(s_2)>>), ASetvar(<<Lit(s_neg)>>, "set", <<Lit(s_m3)>>)>>)>>),
            ActsRule10(pk)>>
          \o (IF pk.p2 = 0 THEN << >> ELSE <<ActsRule20(pk)>>)
          \o <<[MkRule(90, 2, <<RuleLink(<<TK("TX", s_n)>>, << >>, OpLit("ge", s_2), FALSE, <<A("deny")>>)>>) EXCEPT !.sev = 3]>>,
@@ -265,5 +268,23 @@ DirScen(pk) ==
   IF pk.kind = "dir"
     THEN [MkScen(DirBase, pk.rq, "On") EXCEPT !.dirs = SelectSeq(<<pk.d1, pk.d2>>, LAMBDA d : d.d # "")]
     ELSE MkScen(SubSeq(DirBase, 1, pk.pos) \o <<[CtlRule(pk.ctl) EXCEPT !.phase = IF pk.pos = 0 THEN 1 ELSE 2]>> \o SubSeq(DirBase, pk.pos + 1, Len(DirBase)), pk.rq, "On")
+
+(***************************************************************************)
+(* Family "pair" (C01, C13): two rules of one configuration whose regex    *)
+(* key selectors (or exclusions) have the same text but sit on collections *)
+(* of different kind, in both orders - compiled patterns must not leak     *)
+(* from one rule to the other.                                             *)
+(***************************************************************************)
+s_Ab == <<65, 98>>      \* "Ab"
+PairPats == {[m |-> "prefix", lit |-> s_A], [m |-> "prefix", lit |-> s_a], [m |-> "exact", lit |-> s_Ab]}
+PairCols == {"ARGS_GET", "REQUEST_HEADERS", "ARGS_NAMES", "REQUEST_HEADERS_NAMES"}
+PairEntries == {E(c, k, s_x) : c \in {"ARGS_GET", "REQUEST_HEADERS"}, k \in {s_Ab, s_a}}
+PairRule(id, col, pat, asExcl) ==
+  MkRule(id, 2, <<RuleLink(<<IF asExcl THEN Tgt(col, SelAll, FALSE, <<SelRx(pat)>>) ELSE Tgt(col, SelRx(pat), FALSE, << >>)>>,
+                           << >>, Op("unconditionalMatch", << >>, FALSE), FALSE, << >>)>>)
+PairPicks(maxEntries, slice, slices) ==
+  [pat : PairPats, c1 : PairCols, c2 : PairCols, x1 : BOOLEAN, x2 : BOOLEAN,
+   rq : SliceOf(SeqsUpTo(PairEntries, maxEntries), slice, slices)]
+PairScen(pk) == MkScen(<<PairRule(10, pk.c1, pk.pat, pk.x1), PairRule(20, pk.c2, pk.pat, pk.x2)>>, pk.rq, "On")
 
 =============================================================================
